@@ -37,7 +37,11 @@ RULE = ("random histories (quick: 4-10 steps, thorough: up to 16) of the public 
         "twins and whole subtrees; transform visitors / transformers are finite rule programs (generic, keep, remove, set "
         "property, fresh node, raise).  After every step the full view of every held node (attachment, parent / field / index, "
         "lookup, ids, content_id, xpath, fields) is compared with the model, and the property's clauses are evaluated on the "
-        "live objects.  non-trivial = at least 3 executed steps one of which mutates an existing node; distinct = distinct input terms")
+        "live objects.  Besides the random histories, three scripted families with random parameters (15 cases each in quick, 150 in "
+        "thorough): removal of a mostly non-last element from a list / tuple field with 3-5 elements (replace_with(None) or a transformer "
+        "returning None) followed by operations on the shifted siblings; inner nodes with explicit ids that look false ('', '0', ...) "
+        "two or more levels above an in-place change; root.detach_self(), an edit below one of its still attached children, the root's "
+        "id occupied or a child given another parent, then the rejected root.attach().  non-trivial = at least 3 executed steps one of which mutates an existing node; distinct = distinct input terms")
 TRUSTED_BASE = [
     "model coq/Model/Legacy.v hand-written from pyoak/legacy/node.py:254-1055,1607-1835; tie = this correspondence run (every held node, every step)",
     "the digest is symbolic in the model run (H pre = 0x01 pre 0x02); the harness substitutes real hashlib.sha256 innermost-first (resolve())",
@@ -584,8 +588,9 @@ def script_list_removal(rng, force=None):
         if mode == "two" and len(rest) > 1:
             g.emit(Con("ReplaceWith", rest[rng.randrange(len(rest) - 1)], None))
         # follow-ups on the survivors: the element that moved into the freed slot is the interesting one
-        for _ in range(rng.choice([1, 2, 3])):
-            k = rng.choice(["xpath", "with", "replace", "dup", "none"])
+        # (a duplicate comes last: q.is_ancestor(child of p) is a known finding that ends the comparison of a case)
+        for k in sorted((rng.choice(["xpath", "with", "replace", "dup", "none"]) for _ in range(rng.choice([1, 2, 3]))),
+                        key=lambda k: k == "dup"):
             x = rest[min(j, len(rest) - 1)] if rng.random() < 0.6 else rng.choice(rest)
             if k == "xpath":
                 g.emit(Con("Xpath", top))
@@ -629,8 +634,7 @@ def script_falsy_id(rng, force=None):
             g.emit(Con("Replace", a, [["v", Con("V", Con("P", _lval("c")))]]))
         else:
             g.edit(a, sib, top)
-        for _ in range(rng.choice([0, 1, 2])):
-            k = rng.choice(["xpath", "dup", "detach-attach"])
+        for k in sorted((rng.choice(["xpath", "dup", "detach-attach"]) for _ in range(rng.choice([0, 1, 2]))), key=lambda k: k == "dup"):
             if k == "xpath":
                 g.emit(Con("Xpath", top))
             elif k == "dup":
